@@ -872,7 +872,8 @@ func HashMapOfValueIndex(vm *Thread, hashMap *HashMapOfValue, key value.Value) (
 		// when we reach the start index
 		// all slots are checked
 		if index == startIndex {
-			return -1, value.Undefined
+			// no empty slot, but a slot left by a deleted entry can be reused
+			return deletedIndex, value.Undefined
 		}
 	}
 }
